@@ -1,1 +1,100 @@
-// placeholder
+// C32 (a): pc_to_error_location / make_stack_trace on symbolic source tables.
+// These harnesses run the REAL location code (no loc/trace stubs).
+
+pub(super) fn mk_loc_thread(tab: [(u32, u32); 3], n: usize) -> VmGreenThread {
+    // three tables share the shape but map to different ids so that mix-ups show
+    let mut ft = Vec::with_capacity(3);
+    let mut lt = Vec::with_capacity(3);
+    let mut fnt = Vec::with_capacity(3);
+    let mut k = 0;
+    while k < n {
+        ft.push((tab[k].0, tab[k].1 % 3));
+        lt.push((tab[k].0, tab[k].1));
+        fnt.push((tab[k].0, (tab[k].1 + 1) % 3));
+        k += 1;
+    }
+    let shared = VmSharedReadonly {
+        program: vec![Instr::Stop],
+        int_constants: vec![],
+        float_constants: vec![],
+        static_strings: vec![],
+        filename_table: ft,
+        lineno_table: lt,
+        function_name_table: fnt,
+        // distinct lengths identify the arena entry without comparing bytes
+        filename_arena: vec![String::new(), String::from("a"), String::from("bb")],
+        function_name_arena: vec![String::from("fff"), String::from("gggg"), String::from("hhhhh")],
+        heap_size: 0,
+    };
+    let (sender, receiver) = mpsc::channel();
+    std::mem::forget(receiver);
+    VmGreenThread::new(Arc::new(shared), sender)
+}
+
+pub(super) fn sym_table() -> ([(u32, u32); 3], usize) {
+    let n: usize = kani::any();
+    kani::assume(n >= 1 && n <= 3);
+    let tab: [(u32, u32); 3] = kani::any();
+    // tables start at instruction 0 and are strictly increasing in the bytecode index
+    kani::assume(tab[0].0 == 0);
+    kani::assume(n < 2 || tab[1].0 > tab[0].0);
+    kani::assume(n < 3 || tab[2].0 > tab[1].0);
+    kani::assume(tab[0].1 < 1000 && tab[1].1 < 1000 && tab[2].1 < 1000);
+    (tab, n)
+}
+
+// the entry covering instruction index i: the last entry whose start is <= i
+pub(super) fn covering(tab: &[(u32, u32); 3], n: usize, i: u32) -> u32 {
+    let mut r = tab[0].1;
+    if n > 1 && tab[1].0 <= i { r = tab[1].1; }
+    if n > 2 && tab[2].0 <= i { r = tab[2].1; }
+    r
+}
+
+#[kani::proof]
+#[kani::unwind(6)]
+fn c32_pc_to_error_location() {
+    let (tab, n) = sym_table();
+    let t = mk_loc_thread(tab, n);
+    // an error is raised after pc was advanced: the failing instruction is pc - 1
+    let pc: u32 = kani::any();
+    kani::assume(pc >= 1 && pc < 100000);
+    let loc = t.pc_to_error_location(ProgramCounter(pc));
+    let want = covering(&tab, n, pc - 1);
+    assert!(loc.lineno == want, "line of the instruction that failed (pc - 1)");
+    assert!(loc.filename.len() == (want % 3) as usize, "file of the instruction that failed");
+    assert!(loc.function_name.len() == 3 + ((want + 1) % 3) as usize, "function of the instruction that failed");
+    kani::cover!(n == 3 && pc == tab[2].0, "req: failing instruction is the last one of an entry");
+    kani::cover!(n == 3 && pc == tab[2].0 + 1, "req: failing instruction is the first one of an entry");
+    std::mem::forget(t);
+}
+
+#[kani::proof]
+#[kani::unwind(6)]
+fn c32_stack_trace_order() {
+    let (tab, n) = sym_table();
+    let mut t = mk_loc_thread(tab, n);
+    let (p0, p1): (u32, u32) = (kani::any(), kani::any());
+    kani::assume(p0 >= 1 && p0 < 1000 && p1 >= 1 && p1 < 1000);
+    // outer call made at instruction p0 - 1, inner call at p1 - 1 (return addresses p0, p1)
+    t.call_stack.push(CallFrame { pc: ProgramCounter(p0), stack_base: 0, nargs: 0 });
+    t.call_stack.push(CallFrame { pc: ProgramCounter(p1), stack_base: 0, nargs: 0 });
+    let pc: u32 = kani::any();
+    kani::assume(pc >= 1 && pc < 1000);
+    t.pc = ProgramCounter(pc);
+    let e = t.make_error(VmErrorKind::DivisionByZero);
+    assert!(e.location.lineno == covering(&tab, n, pc - 1), "failure location first");
+    assert!(e.trace.len() == 2, "one entry per active call");
+    // Display prints `once(location).chain(trace.rev())`: innermost call site right after the failure
+    let mut it = std::iter::once(&e.location).chain(e.trace.iter().rev());
+    let l0 = it.next().unwrap().lineno;
+    let l1 = it.next().unwrap().lineno;
+    let l2 = it.next().unwrap().lineno;
+    assert!(it.next().is_none());
+    assert!(l0 == covering(&tab, n, pc - 1), "failure location");
+    assert!(l1 == covering(&tab, n, p1 - 1), "then the innermost call site");
+    assert!(l2 == covering(&tab, n, p0 - 1), "then the outer call site");
+    kani::cover!(l1 != l2, "req: distinct call-site lines");
+    std::mem::forget(t);
+    std::mem::forget(e);
+}
